@@ -2746,9 +2746,14 @@ public:
     CRAB_LOG("array-adaptive",
              crab::outs() << "Array assign " << lhs << " := " << rhs << "\n";);
 
-    if (is_bottom()) {
+    if (is_bottom() || lhs == rhs) {
       return;
     }
+
+    // The old contents of lhs are overwritten: forget all its cells
+    // (or its smashed variable). Otherwise, a cell of lhs without
+    // counterpart in rhs would keep its old value.
+    forget_array(lhs);
 
     const array_state &as = lookup_array_state(rhs);
     if (!as.is_smashed()) {
